@@ -227,8 +227,10 @@ def oracle_chain(run: Run, thorough: bool):
     from harness.props.c07 import make_cohort, change_others, reorder, cfg_name
     plans = [(("logistic", 2, 1, None), 5, "mean_posterior", 30), (("logistic", 2, 1, None), 4, "mode_posterior", 28)]
     if thorough:
+        # no mixture plan: mean_/mode_posterior on a mixture model always raise (RuntimeError in time_reparametrization) — the listed
+        # finding `personalize:mixture_logistic-mcmc-crash` of C17, nothing this oracle could add to
         plans += [(("linear", 2, 1, None), 5, "mode_posterior", 60), (("logistic", 3, 2, None), 6, "mean_posterior", 80),
-                  (("mixture_logistic", 3, 2, None), 6, "mean_posterior", 40)]
+                  (("shared_speed_logistic", 3, 1, None), 5, "mean_posterior", 40)]
     cases, metas = [], []
     for cfg, n, algo, n_iter in plans:
         kind, nf, sd, noise = cfg
